@@ -154,26 +154,6 @@ Definition judge_index (c o : sexp) : verdict :=
     produced.  case ((kind edit) (tree T) (op name) ...)
     obs ((operr msg) (tree T') (audit (...)) (tips ...) (edges ...)).  Failures of the operation
     itself (error, panic) belong to other properties. *)
-Definition judge_edit (c o : sexp) : verdict :=
-  match get_string "panic" o with
-  | Some _ => VOk false "edit:panic"
-  | None =>
-    match get_string "operr" o, get_tree "tree" o with
-    | Some operr, Some g =>
-      if negb (String.eqb operr "") then VOk false "edit:operr" else
-      match audit_ok o with
-      | Some m => VOk false "edit:audit"
-      | None =>
-        if negb (wf g && Nat.leb 2 (degree g) && distinct_sorted (ssort (leaves g))) then VOk false "edit:degenerate"
-        else match get_string "err" o with
-             | Some gerr => judge_tables "edit" g gerr o
-             | None => VBad "no tables in edit observation"
-             end
-      end
-    | _, _ => VBad "undecodable edit observation"
-    end
-  end.
-
 (** * samebip *)
 Definition split_sides (t : utree) : list (list string) :=
   let all := tipset t in map (fun ec => canon_side all (sset (leaves (snd ec)))) (edges t).
@@ -202,6 +182,55 @@ Fixpoint check_matrix2 {A} (f : A -> A -> bool * bool -> option string) (la lb :
                     | x :: bs' => match f a b x with Some m => Some m | None => row rb bs' end
                     end
        end) lb bits
+  end.
+
+(** * edit: the tables left by an editing operation (its own Reinit* call, or an explicit
+    ReinitIndexes) are judged against the split structure of the tree dumped AFTER the edit:
+    bitsets, counts and depth of every branch; SameBipartition / HashCode of every pair (branch of
+    the result, branch of an independently built and indexed copy of the dumped tree).
+    case ((kind edit) (tree T) (op name) ...)
+    obs ((operr msg) (tree T') (audit (...)) (err msg) (tips ...) (edges ...)
+         (copyerr msg) (samecopy bits) (heqcopy bits)).
+    Failures of the operation itself (error, panic) and purely structural audit problems belong
+    to other properties; wrong tables are reported here whatever the audit says. *)
+Definition judge_edit (c o : sexp) : verdict :=
+  match get_string "panic" o with
+  | Some _ => VOk false "edit:panic"
+  | None =>
+    match get_string "operr" o, get_tree "tree" o with
+    | Some operr, Some g =>
+      if negb (String.eqb operr "") then VOk false "edit:operr" else
+      if negb (wf g && Nat.leb 2 (degree g) && distinct_sorted (ssort (leaves g))) then VOk false "edit:degenerate"
+      else match get_string "err" o with
+           | None => VBad "no tables in edit observation"
+           | Some gerr =>
+             match judge_tables "edit" g gerr o with
+             | VOk nt tag =>
+               match get_string "copyerr" o, get_bits "samecopy" o, get_bits "heqcopy" o with
+               | Some ce, Some sc, Some hc =>
+                 if negb (String.eqb ce "") then VCorr ("independent copy of the result: " ++ ce) else
+                 let k := combine (split_sides g) (rows g) in
+                 if negb (Nat.eqb (length sc) (length k * length k) && Nat.eqb (length hc) (length k * length k))
+                 then VOracle "result/copy matrix: number of branches" else
+                 match check_matrix2 (fun a b x => pair_oracle "result/copy" a b (fst x) (snd x)) k k (zip_bits sc hc) with
+                 | Some m => VOracle m
+                 | None =>
+                   match check_matrix2 (fun a b x =>
+                            if negb (Bool.eqb (same_bipartition (snd a) (snd b)) (fst x)) then Some "SameBipartition result/copy"
+                            else if negb (Bool.eqb (N.eqb (hash_code (snd a)) (hash_code (snd b))) (snd x)) then Some "HashCode equality result/copy"
+                            else None) k k (zip_bits sc hc) with
+                   | Some m => VCorr m
+                   | None => match audit_ok o with Some _ => VOk false "edit:audit" | None => VOk nt tag end
+                   end
+                 end
+               | Some ce, _, _ => VCorr ("independent copy of the result: " ++ ce)
+               | _, _, _ => VBad "no copy comparison in edit observation"
+               end
+             | v => v
+             end
+           end
+    | _, _ => VBad "undecodable edit observation"
+    end
   end.
 
 Definition find_code (r : res bool) : string :=
